@@ -43,6 +43,12 @@ struct ExactBuf {
   ~ExactBuf() { std::free(p); }
 };
 
+template <class A>
+static auto clear_pool(A& a) -> decltype(a.Clear(), void()) {
+  a.Clear();
+}
+static void clear_pool(...) {}
+
 static bool parse_code_ok(int c) { return (c >= 1 && c <= 10) || c == 15; }
 
 // ---------------------------------------------------------------- C01
@@ -168,13 +174,16 @@ template <class Doc>
 static void c03_after_history(const std::vector<const std::string*>& before, int mode, const std::string& last, const ref::Value& want, const char* tag, vr::Ctx& ctx) {
   std::string desc;
   for (auto x : before) desc += *x + " ; ";
-  desc += (mode == 1 ? "[then ParseOnDemand /a] ; " : mode == 2 ? "[then ParseSchema] ; " : "") + last;
+  desc += (mode == 1 ? "[then ParseOnDemand /a] ; " : mode == 2 ? "[then ParseSchema] ; " : mode == 3 ? "[then allocator.Clear()] ; " : "") + last;
   Doc doc;
   for (auto x : before) {
     ExactBuf b(*x);
     doc.Parse(b.p, b.n);
   }
-  if (mode == 1) {
+  if (mode == 3) {
+    static_cast<typename Doc::NodeType&>(doc).SetNull();
+    clear_pool(doc.GetAllocator());
+  } else if (mode == 1) {
     ExactBuf b(last);
     doc.ParseOnDemand(b.p, b.n, JsonPointer({JsonPointerNode("a")}));
   } else if (mode == 2) {
@@ -270,11 +279,6 @@ static void check_C02(const std::string& text, vr::Ctx& ctx) {
 struct HistSet {
   std::vector<std::string> S;
 };
-template <class A>
-static auto clear_pool(A& a) -> decltype(a.Clear(), void()) {
-  a.Clear();
-}
-static void clear_pool(...) {}
 template <class Doc>
 static void c02_hist(const HistSet& hs, const std::vector<unsigned>& seq, unsigned mode, const char* tag, vr::Ctx& ctx) {
   std::string desc;
@@ -296,6 +300,9 @@ static void c02_hist(const HistSet& hs, const std::vector<unsigned>& seq, unsign
       // touch anything the document obtained before
       static_cast<typename Doc::NodeType&>(doc).SetNull();
       clear_pool(doc.GetAllocator());
+    } else if (mode == 4) {
+      // the root itself becomes a string that owns a copy (only the mutation API produces such a root)
+      doc.SetString("an owned string value of the root, long enough to need its own block", doc.GetAllocator());
     } else if (mode == 3) {
       // a string value is moved out of the document and kept by the caller (it lives as long as the allocator)
       typename Doc::NodeType* src = nullptr;
@@ -308,7 +315,7 @@ static void c02_hist(const HistSet& hs, const std::vector<unsigned>& seq, unsign
       }
     }
     Doc fresh;
-    if (mode == 0 || mode == 2 || mode == 3) {
+    if (mode == 0 || mode == 2 || mode == 3 || mode == 4) {
       doc.Parse(bufs[last]->p, bufs[last]->n);
       fresh.Parse(bufs[last]->p, bufs[last]->n);
       if (have_kept && (!keep.IsString() || std::string(keep.GetStringView().data(), keep.GetStringView().size()) != kept))
@@ -441,15 +448,15 @@ int main(int argc, char** argv) {
     fh1.chunk = 64;
     fh1.rule = "all ordered pairs (X,Y) over the " + std::to_string(hs.S.size()) + "-text set (valid, invalid, truncated, deep, whitespace layouts with runs at different offsets, garbage where another layout has whitespace, a long pretty-printed document): Parse X ; Parse Y on ONE document (pool and freeing allocator): Y must be accepted / rejected / reported exactly as the C01 oracle demands for Y alone";
     fhv.name = "H2v_value_after_history";
-    fhv.count = (uint64_t)hs.S.size() * hs.S.size() * 3;
+    fhv.count = (uint64_t)hs.S.size() * hs.S.size() * 4;
     fhv.group = "H2v";
     fhv.chunk = 64;
-    fhv.rule = "all ordered pairs (X,Y) over the " + std::to_string(hs.S.size()) + "-text set (valid, invalid, truncated, deep) with Y valid, in 3 histories on ONE document (Parse X ; Parse Y / Parse X ; ParseOnDemand(Y,/a) ; Parse Y / Parse X ; ParseSchema(Y) ; Parse Y), pool and freeing allocator: the document read back through the accessors must be exactly Y's value";
+    fhv.rule = "all ordered pairs (X,Y) over the " + std::to_string(hs.S.size()) + "-text set (valid, invalid, truncated, deep) with Y valid, in 4 histories on ONE document (Parse X ; Parse Y / Parse X ; ParseOnDemand(Y,/a) ; Parse Y / Parse X ; ParseSchema(Y) ; Parse Y / Parse X ; allocator.Clear() ; Parse Y [pool]), pool and freeing allocator: the document read back through the accessors must be exactly Y's value";
     fpairs.name = "H2_reuse_pairs";
-    fpairs.count = (uint64_t)hs.S.size() * hs.S.size() * 4;
+    fpairs.count = (uint64_t)hs.S.size() * hs.S.size() * 5;
     fpairs.group = "H2";
     fpairs.rule = "reuse histories: all ordered pairs (X,Y) over a " + std::to_string(hs.S.size()) +
-                  "-text set (valid, invalid, truncated, deep) parsed into ONE document in 4 modes (Parse;Parse / Parse;ParseOnDemand(/a) / Parse;allocator.Clear();Parse / Parse;a string value moved out and kept by the caller;Parse - the last two for the pool allocator), pool + freeing + tracking allocator; result compared with a fresh document, the kept string must be unchanged";
+                  "-text set (valid, invalid, truncated, deep) parsed into ONE document in 5 modes (Parse;Parse / Parse;ParseOnDemand(/a) / Parse;allocator.Clear();Parse / Parse;a string value moved out and kept by the caller;Parse - these two for the pool allocator - / Parse;root.SetString(copy);Parse), pool + freeing + tracking allocator; result compared with a fresh document, the kept string must be unchanged";
     fpairs.chunk = 64;
     if (!quick) {
       ftriples.name = "H3_reuse_triples";
@@ -476,8 +483,8 @@ int main(int argc, char** argv) {
       return;
     }
     if (f.name == "H2v_value_after_history") {
-      int mode = (int)(idx % 3);
-      uint64_t r = idx / 3;
+      int mode = (int)(idx % 4);
+      uint64_t r = idx / 4;
       const std::string& X = hs.S[r / hs.S.size()];
       const std::string& Y = hs.S[r % hs.S.size()];
       ref::Result ry = ref::parse(Y);
@@ -489,15 +496,15 @@ int main(int argc, char** argv) {
       ctx.nontriv();
       if (ctx.want_sample) ctx.sample("mode " + std::to_string(mode) + ": " + X + " ; " + Y);
       c03_after_history<PoolDoc>({&X}, mode, Y, ry.v, "pool", ctx);
-      c03_after_history<SimpleDoc>({&X}, mode, Y, ry.v, "simple", ctx);
+      if (mode != 3) c03_after_history<SimpleDoc>({&X}, mode, Y, ry.v, "simple", ctx);
       return;
     }
     if (f.name == "H2_reuse_pairs" || f.name == "H3_reuse_triples") {
       std::vector<unsigned> seq;
       unsigned mode = 0;
       if (f.name == "H2_reuse_pairs") {
-        mode = (unsigned)(idx % 4);
-        uint64_t r = idx / 4;
+        mode = (unsigned)(idx % 5);
+        uint64_t r = idx / 5;
         seq = {(unsigned)(r / hs.S.size()), (unsigned)(r % hs.S.size())};
       } else {
         size_t m = std::min<size_t>(hs.S.size(), 40);
@@ -511,7 +518,7 @@ int main(int argc, char** argv) {
         ctx.sample("mode " + std::to_string(mode) + ": " + d);
       }
       c02_hist<PoolDoc>(hs, seq, mode, "pool", ctx);
-      if (mode >= 2) return;  // Clear() / kept nodes are pool-allocator scenarios
+      if (mode == 2 || mode == 3) return;  // Clear() / kept nodes are pool-allocator scenarios
       c02_hist<SimpleDoc>(hs, seq, mode, "simple", ctx);
       ta::Ledger& L = ta::ledger();
       L.reset();
